@@ -237,12 +237,15 @@ def _huge_batch_case(draw):
     return c
 
 
-def _near_vertex_sizes(G, j, n0):
-    """Smallest n >= n0 (and P) with 0 < P/n - j/G < 0.9e-6: a curve vertex a hair above a grid value."""
+def _near_vertex_sizes(G, j, n0, rare=False):
+    """Smallest n >= n0 (and P) with 0 < P/n - j/G < 0.9e-6: a curve vertex a hair above a grid value.  With
+    ``rare`` the distance is chosen so that the interpolation weight r / (G P) lies in (2e-5, 4.5e-5): an outcome
+    that is rare but has a definite probability."""
     for n in range(n0, n0 + 20000):
         P = (n * j) // G + 1
         r = G * P - n * j
-        if 0 < r < 0.9e-6 * G * n and 0 < P < n:
+        ok = (2e-5 * G * P < r < 4.5e-5 * G * P) if rare else (0 < r < 0.9e-6 * G * n)
+        if ok and 0 < P < n:
             return n, P
     return None
 
@@ -257,7 +260,7 @@ def check_near_vertex(case):
     G, j = case["grid"], case["j"]
     while math.gcd(j, G) > 1:  # residues n*j mod G then run through every value: a near-coincidence exists in any window of G sizes
         j += 1
-    found = _near_vertex_sizes(G, j, case["n0"])
+    found = _near_vertex_sizes(G, j, case["n0"], rare=bool(case.get("rare")))
     if found is None:
         from vf.runner import Skip
 
@@ -286,6 +289,19 @@ def check_near_vertex(case):
     for key in ("p0", "p1"):
         if not -1e-12 <= float(b[key]) <= 1 + 1e-12:
             raise PropertyViolation(f"interpolation weight {key} = {float(b[key])!r} of group A is outside [0,1] (n={n}, P={P}, grid value {j}/{G})")
+    if case.get("rare") and not case["flip"]:
+        # a row whose reported probability q of the rarer label lies in (1e-5, 5e-5): among 2 000 000 independent draws the
+        # rarer label occurs 2e6 * q >= 20 times on average; never seeing it has probability < e^-20
+        ph = float(np.asarray(to._pmf_predict(np.array([[hi]]), sensitive_features=np.array(["A"])))[0, 1])
+        q = min(ph, 1 - ph)
+        if 1e-5 < q < 5e-5:
+            N = 2000000
+            yh = np.asarray(to.predict(np.full((N, 1), hi), sensitive_features=np.full(N, "A"), random_state=case["n0"]))
+            rare_count = int((yh == (1 if ph < 0.5 else 0)).sum())
+            if rare_count == 0:
+                raise PropertyViolation(f"a row with reported P(1) = {ph!r} was predicted {N} times with independent draws and the label of "
+                                        f"probability {q:.2e} never occurred (expected about {N * q:.0f} times)")
+            tags.append("rare_outcome_sampled")
     x_sel = float(np.asarray(to._pmf_predict(sA.reshape(-1, 1), sensitive_features=np.full(n, "A")))[:, 1].mean())
     if abs(x_sel - j / G) < 1e-9:
         tags.append("chosen_grid_value_just_below_vertex")
@@ -297,7 +313,8 @@ def _near_vertex_case(draw):
     G = draw(st.sampled_from([1000, 1000, 500, 2000]))
     return {"grid": G, "j": draw(st.integers(G // 10, 9 * G // 10)), "n0": draw(st.sampled_from([5000, 8000, 10000, 12000])),
             "nB": draw(st.sampled_from([40, 200, 1000])), "hi": draw(st.sampled_from([0.8, 1.0, 3.0])), "lo": draw(st.sampled_from([0.2, 0.0, -2.0])),
-            "constraint": draw(st.sampled_from(["demographic_parity", "selection_rate_parity"])), "flip": draw(st.booleans())}
+            "constraint": draw(st.sampled_from(["demographic_parity", "selection_rate_parity"])), "flip": draw(st.booleans()),
+            "rare": draw(st.integers(0, 3)) == 0}
 
 
 # ---- ExponentiatedGradient -------------------------------------------------------------------------------------
